@@ -2,7 +2,7 @@ CLAIMED = True
 SPEC = {
     "id": "C17",
     "props": "PlzVerif/Props/C17.lean",
-    "extract": ["c16", "c18"],
+    "extract": ["c16", "c18", "c17"],
     "harness": "c17",
     "driver": "Driver/C17.lean",
     "needs_plz": False,
@@ -21,11 +21,20 @@ SPEC = {
         "fresh heap cells (by mutual induction over freeze / freezeList / freezeKvs), while today's Freeze already "
         "fails that for [[1, 2]]. No whole-program frame theorem: that packages cannot reach unfrozen shared cells "
         "through the rest of the interpreter is tied to the code by the correspondence and the direct oracle only. "
-        "Concurrent parsing is not modelled (sequential orders only)."
+        "Concurrent parsing is not modelled (sequential orders only). CONFIG (base + per-scope overlay, Merge of the frozen "
+        "CONFIG of subincluded files; Model/AspConfig.lean, a heap of overlay maps with the allocation and write sites of "
+        "pyConfig) has a FULL non-interference theorem: for every set of files and every sequence of package evaluations in "
+        "one interpreter the CONFIG a package observes is a function of its own subincludes and writes "
+        "(C17_config_noninterference, induction over the sequence with the invariant that cached overlay cells are never "
+        "written), tied to the code by the regenerated facts (every assignment to .overlay stores a fresh map, Merge in "
+        "particular, no further field in pyConfig) and by the direct oracle on generated package sets in every order; "
+        "C17_config_alias_interferes shows the fact is necessary. The CONFIG model is separate from the interpreter model "
+        "(CONFIG values are ints, files only write, packages only subinclude and write)."
     ),
     "technique": "Lean heap model of Freeze/Subinclude + differential run of package sets in every order against each package alone, with repair-based classification",
     "trusted": [
         "go/ast extractor harness/extract/c16 (pyList.Freeze return shape, list +, sorted/reversed, Constant(), interpretSlice)",
+        "go/ast extractor harness/extract/c17 (fields of pyConfig; every assignment to a field .overlay in objects.go, config.go, interpreter.go, builtins.go with the kind of value stored: make / literal / copy / alias; how pyConfig.Merge obtains the destination overlay)",
         "correspondence harness/cmd/c17 (asplib/c17.go): real interpreter with packages sharing a really subincluded file (hooks EvalScopeForVerif, core graph with a built target) vs Driver/C17.lean",
         "modelled, not verified: Model/AspInterp.lean runPackages / subincludeAll (Subinclude cache, optimised interpretation, scope.Freeze, SetAll)",
         "classification: re-run on the real code with private deep copies of everything imported (+ copying returns), with non-constant literals in the subincluded file, or with copying list sums",
@@ -46,4 +55,6 @@ Dry-runs on a scratch copy (VERIF_REPO=/var/tmp/mC16, ./check C17 quick), all co
  R3  builtins.go sorted/reversed back to l[:] (after the repairs 95d3a82, b818e89)   RED  C17_toplevel_partial no longer checks (facts sortedArg/reversedArg flip); no concrete package set at quick
  ME  interpreter.go Subinclude: rename local `locals`                              GREEN (harmless)
  MA  objects.go  pyList.Freeze returns the frozen copy (the fix)                   RED as designed: C17_witness_freeze_keeps_elements / C17_freeze_today_not_deep no longer check
+ S3  round-3 seed (written for C07): objects.go pyConfig.Merge adopts the incoming overlay by reference (borrowed flag, copy-on-write in IndexAssign only)
+     first version of the check MISSED it (CONFIG merges were neither modelled nor generated); after Model/AspConfig.lean, extract/c17 and the msm generator: RED, see commit message
 """
